@@ -2,6 +2,7 @@
     Property theorems only. *)
 From Coq Require Import ZArith List Bool.
 From PV Require Import Model.Base Model.Sched Model.Seq.
+From PV Require Gen.Pure Model.Chan Proofs.PureEq.
 From PV Require Import Proofs.SchedInv Proofs.ConflictSpec Proofs.RetargetSpec Proofs.RetargetWitness.
 Import ListNotations.
 Open Scope Z_scope.
@@ -81,3 +82,14 @@ Theorem C10_retarget_same_inserts_nothing_refuted :
     nslots (fst (step v s (OTarget qs ch))) <> nslots s.
 Proof. exact retarget_same_inserts_nothing_refuted. Qed.
 Print Assumptions C10_retarget_same_inserts_nothing_refuted.
+
+(** Tie to the source by translation: the rise time and phase-jump time the
+    theorems above are stated over are EQUAL to the functions regenerated from
+    the current source (Channel.rise_time, Channel.phase_jump_time). *)
+Theorem C10_source_phase_jump_time :
+  forall (r : Chan.craw),
+    c_rise (Chan.mk_ccfg r) = Gen.Pure.gen_rise_time (Chan.r_bw r) /\
+    c_pj (Chan.mk_ccfg r) =
+      Gen.Pure.gen_phase_jump_time (Gen.Pure.gen_rise_time (Chan.r_bw r)) (Chan.r_cpj r).
+Proof. exact PureEq.mk_ccfg_times. Qed.
+Print Assumptions C10_source_phase_jump_time.
